@@ -73,8 +73,7 @@ def get_use_tree(
             for loc_name, rem_name in rename_map.items():
                 if loc_name != rem_name and rem_name not in rename_map:
                     merged_use_list.discard(rem_name)
-                    if use_stmnt.only_list:
-                        merged_rename.pop(rem_name, None)
+                    merged_rename.pop(rem_name, None)
         elif len(use_stmnt.only_list) == 0:
             merged_use_list = only_list.copy()
             merged_rename = rename_map.copy()
